@@ -874,6 +874,17 @@ def run(ctx):
               'returned identifiers are str(x.unique_identifier) of elements derived from the access-filtered list only',
               'Locate can return identifiers that do not come from the access-filtered list')
     check_policy_table_freshness(ctx)
+    # ---------------- R13 (lifted from C10)
+    ctx.rule('C03.R13', "the identity an access decision is taken under is the requester's: the request prologue that stores the client identity and every decision that reads it run inside one critical section (lifted from C10.R1/R2) - otherwise a concurrently served session's header replaces the identity between the prologue and the batch, and objects are handed to (or created for) the wrong user")
+    from ..report import Ctx as _LCtx, run_lifted as _run_lifted
+    from . import c10 as _c10
+    _sub = _LCtx('C10', 'quick', ctx.src, 0)
+    _run_lifted(ctx, _c10, _sub)
+    _lift = [f for f in _sub.findings if f.rule in ('C10.R1', 'C10.R2')]
+    for f in _lift:
+        ctx.fail('C03.R13', f.key, f.site, f.message)
+    if not _lift:
+        ctx.ok('C03.R13', 'lifted from C10', 'process_request, including the store of the client identity, is synchronised')
     # ---------------- R11 a handler around an access-controlled load treats "denied" and "absent" alike
     ctx.rule('C03.R11', 'where a call of the access-control choke point sits inside a try, the except arm that answers ItemNotFound is the same arm that answers PermissionDenied (or neither is caught): otherwise a denied indirect load (e.g. the wrapping key of Get) is answered differently from an absent one and reveals that the object exists')
     n_t = 0
